@@ -103,7 +103,7 @@ CHECKS["C17"] = dict(
     note=COMMON_NOTE + " Loop-level: asyncio tasks, gather, Event and getaddrinfo are MODELLED (hop rules calibrated against CPython 3.12 under the virtual-time loop); the model never runs late.")
 
 CHECKS["C04"] = dict(
-    text="Composed model (Model/System.v): two stack models, each on its own loop model, and a network with an oracle-driven fault window, graceful stop/start, crash, restart. Coq theorems (interface lemmas of the composition, every state): crashed node silent, restarted node fresh, its first message carries (reboot flag, id 1) and is detected by every peer that heard from it before and by nobody else, network reliable / in order / constant latency outside the fault window, latency >= 1 tick; component guarantees from C05-C11, C14. NOT proved: the convergence statement over the composed model. It is decided on every run by executing the composed model and TWO REAL STACKS on two virtual-time loops over the same scenarios (both complete traces compared event by event) and judging the implementation traces with the extracted check_C04 (truth from the control events alone; views after last disturbance + TTL + period must equal the truth and stay). Over every run of the composition (any stop / start / crash / restart sequence, any fault pattern) BOTH stacks satisfy in every state the ownership invariant, the history invariant (C15 conservation, C08 session ids, wire = history) and the truthful alternating listener histories of C06 and C05 (Proofs/SystemInv.v, SystemWhole.v); the per-entry dispatch of sd_message_received is the control flow translated from the source on every run.",
+    text="Composed model (Model/System.v): two stack models, each on its own loop model, and a network with an oracle-driven fault window, graceful stop/start, crash, restart. Coq theorems (interface lemmas of the composition, every state): crashed node silent, restarted node fresh, its first message carries (reboot flag, id 1) and is detected by every peer that heard from it before and by nobody else, network reliable / in order / constant latency outside the fault window, latency >= 1 tick; component guarantees from C05-C11, C14. NOT proved: the convergence statement over the composed model. It is decided on every run by executing the composed model and TWO REAL STACKS on two virtual-time loops over the same scenarios (both complete traces compared event by event) and judging the implementation traces with the extracted check_C04 (truth from the control events alone; views after last disturbance + TTL + period must equal the truth and stay). Over every run of the composition (any stop / start / crash / restart sequence, any fault pattern) BOTH stacks satisfy in every state the ownership invariant, the history invariant (C15 conservation, C08 session ids, wire = history) and the truthful alternating listener histories of C06 and C05 (Proofs/SystemInv.v, SystemWhole.v); the per-entry dispatch of sd_message_received is the control flow translated from the source on every run. The convergence domain (Spec/C04Spec.v in_domain) covers finite TTLs longer than the periods with cyclic offers, and infinite TTLs with cyclic OR non-cyclic offerers when nobody is left crashed at the end; known findings F16, F20, F21 (narrow patterns).",
     design="6 (C04)", technique="Coq interface lemmas of the two-stack composition + executable composed model with exact two-stack trace correspondence on virtual-time loops + extracted convergence checker",
     note=STACK_NOTE + " For C04 the claim rests mainly on the co-simulation (exploration strength for the convergence statement itself); crash = the world is discarded, restart = fresh world; real-time lateness and real sockets are outside the model.")
 
